@@ -67,11 +67,22 @@ def macroStep (h : Pipe.Host) (tok : String) : Option Pipe.Host :=
   | ("burst", none) =>   -- several fill() calls at once (32 in the model): all pass the first check, then take the write lock one by one
       if h.cur.isNone then none else some (repeatStep (repeatStep h .fillCheck 32) .fillGo 32)
   | ("up", none) => h.step .up
+  -- N concurrent addHost callers (spin barrier / parked on the locks addHost takes): whatever the order in which they
+  -- get the mutex, the first registers (or finds) the pool and fills it, the others find it (Reg: C17_one_pool_per_host)
+  | ("ups", some n) => if n = 0 then none else (h.step .up).map fun h' => repeatStep h' .up (n - 1)
+  | ("upp", some n) => if n = 0 then none else (h.step .up).map fun h' => repeatStep h' .up (n - 1)
   | ("down", none) => if h.cur.isNone then none else h.step .down
   | ("pclose", none) => if h.cur.isNone then none else h.step .pclose
   | ("sclose", none) =>
       if h.sessClosed then none else
-      (h.step .sclose).map fun h' =>
+      ((h.step .sclose).bind (·.step .scancel)).map fun h' =>
+        autoStop (failAll h' ((h'.pools.flatMap (·.att)).map (·.id))) (fuel + 1)
+  -- Session.Close held between policyConnPool.Close() and s.cancel() …
+  | ("shold", none) => if h.sessClosed then none else h.step .sclose
+  -- … and let go: the session context is cancelled, every connect in flight fails
+  | ("sfin", none) =>
+      if !h.sessClosed || h.cancelled then none else
+      (h.step .scancel).map fun h' =>
         autoStop (failAll h' ((h'.pools.flatMap (·.att)).map (·.id))) (fuel + 1)
   | _ => none
 
@@ -102,13 +113,54 @@ def showHs (s : Hs.St) : String :=
   let c := match s.c with | .wait => "wait" | .got => "got" | .left => "left" | .ret => "ret"
   s!"r={r s.r} w={r s.w} c={c} cancelled={b01 s.cancelled} buf={s.buf}"
 
+/-! ### conducted schedules of the refreshDebouncer with waiters (Model/Pool.lean, `WDeb`) -/
+
+/-- the flusher runs until it is inside refreshFn (held by the harness) or has returned: whichever ready case the
+    select takes, the critical section that follows clears both request channels -/
+def debSettle (d : WDeb) : WDeb :=
+  if d.f = .select then
+    let wb : Option WakeBy :=
+      if d.token then some .now else if d.timerArmed then some .timer else if d.quitClosed then some .quit else none
+    match wb with
+    | some b => match wstep d (.wake b) with
+      | some d1 => (wstep d1 .lock).getD d1
+      | none => d
+    | none => d
+  else d
+
+/-- (state, waiters whose refresh returned an error) after one harness action; none = does not apply -/
+def debMacro (st : WDeb × List Nat) (tok : String) : Option (WDeb × List Nat) :=
+  let (d, errs) := st
+  match tok with
+  | "now" => (wstep d .refreshNow).map fun d' => (debSettle d', errs)
+  | "deb" => (wstep d .debounce).map fun d' => (debSettle d', errs)
+  | "stop" => (wstep d .stop).map fun d' => (debSettle d', errs)
+  | "fin" => (wstep d .refreshDone).map fun d' => (debSettle d', errs)
+  | "finE" => (wstep d .refreshDone).map fun d' => (debSettle d', errs ++ ls d.cur)
+  | _ => none
+
+def showDeb (st : WDeb × List Nat) : String :=
+  let (d, errs) := st
+  let f := match d.f with | .select => "sel" | .woken => "wok" | .refreshing => "ref" | .exited => "exit"
+  let ws := (List.range d.nextW).map fun w =>
+    if d.served.contains w then (if errs.contains w then "e" else "r") else if d.shut.contains w then "c" else "p"
+  s!"{f}:{String.join ws}"
+
+def runDebMacro (st : WDeb × List Nat) : List String → List String
+  | [] => []
+  | t :: ts => match debMacro st t with
+    | some st' => showDeb st' :: runDebMacro st' ts
+    | none => "skip" :: runDebMacro st ts
+
 /-- ops:
   pipe size=N ks=K auth=A rm=… : act act …
       a conducted schedule of the connect pipeline → the line of states `cur:open:closedconns;…` the model
-      predicts (initial state first); acts: okK failEK failRK errK pick burst up down pclose sclose
-  pipeobs kind=… size=N maxconns=M orphans=O closedconns=C afterclose=J leaked=L stack=… stalled=S sched=…
-      the monitors of one pipeline scenario → accept | reject:<clause>  (C17_pipe_pool_bound,
-      C17_pipe_no_conn_after_close, C17_pipe_session_close_leaves_nothing, C17_hs_reporters_terminate)
+      predicts (initial state first); acts: okK failEK failRK errK pick burst up upsN uppN down pclose sclose shold sfin
+  pipeobs kind=… size=N maxconns=M orphans=O closedconns=C [hostconns=H] afterclose=J leaked=L stack=… stalled=S [lateadd=A lateopen=K] sched=…
+      the monitors of one pipeline scenario → accept | reject:<clause>  (C17_pipe_pool_bound, C17_one_pool_per_host
+      [hostconns: open sockets of the host across ALL pool objects at a drained quiescent point], C17_pipe_no_conn_after_close,
+      C17_pipe_session_close_leaves_nothing_partial [afterclose / leaked do not count the pool an addHost registered inside
+      Session.Close — lateadd > 0 is the excluded class of that theorem, lateopen its connections], C17_hs_reporters_terminate)
   hsmodel <code|buf> act …   the setupConn result protocol → final state or `stuck`
   poolobs size=N maxconns=M maxopen=K final=F afterclose=J
       what a monitor goroutine saw on a real Session: the largest len(pool.conns), the largest number of
@@ -117,7 +169,16 @@ def showHs (s : Hs.St) : String :=
       `final` must equal `size`: lost connections are replaced)
   debrace <kind> rounds=R hung=H       → accept iff H = 0 (C17_debouncer_stop_returns)
   sessclose returned=1 panics=0 again=1 queryerr=closed open=0  → accept iff exactly that
-  model <size> <act> <act> ...         → conns/pending/filling/closed/opened after the run, or `stuck` -/
+  model <size> <act> <act> ...         → conns/pending/filling/closed/opened after the run, or `stuck`
+  deb : act act …      a conducted schedule of one refreshDebouncer (acts: now deb fin finE stop; refreshFn is held by the
+      harness until fin/finE) → `<flusher>:<one letter per waiter>` after every action (p pending, r result, e error
+      result, c closed channel), initial state first
+  debobs waiters=N stranded=S late=L latestranded=M stopret=B exited=B sched=…   monitors of one debouncer schedule:
+      a waiter registered before the flusher returned that is never released (C17_waiters_released_partial), stop()
+      returns (C17_debouncer_stop_returns), the flusher exits (C17_flusher_exits); `late` waiters (refreshNow after the
+      flusher returned) are the excluded class of the _partial theorem (C17_cex_waiter_after_exit)
+  debwait rounds=R early=E stranded=S stophung=H flusherleft=F    the same monitors over racing rounds
+  sessref waiters=N returned=M closeret=B leaked=L stack=… open=O    Session.refreshRing callers pending across Session.Close -/
 def step (_ : Unit) (ws : List String) : Unit × String :=
   ((), match ws with
   | "pipe" :: r =>
@@ -132,6 +193,7 @@ def step (_ : Unit) (ws : List String) : Unit × String :=
       match kv r "size", kv r "maxconns", kv r "orphans", kv r "closedconns", kv r "afterclose", kv r "leaked", kv r "stalled" with
       | some n, some m, some o, some c, some j, some l, some st =>
         if m > n then s!"reject:pool-holds-{m}-of-{n}"
+        else if (kv r "hostconns").getD 0 > n then s!"reject:host-holds-{(kv r "hostconns").getD 0}-of-{n}"
         else if c > 0 then s!"reject:closed-pool-holds-{c}"
         else if o > 0 then s!"reject:open-socket-outside-open-pool-{o}"
         else if j > 0 then s!"reject:open-after-close-{j}"
@@ -139,6 +201,34 @@ def step (_ : Unit) (ws : List String) : Unit × String :=
         else if st > 0 then "reject:no-quiescence"
         else "accept"
       | _, _, _, _, _, _, _ => "bad-op"
+  | "deb" :: ":" :: acts =>
+      let st : WDeb × List Nat := (WDeb.init, [])
+      ";".intercalate (showDeb st :: runDebMacro st acts)
+  | "debobs" :: r =>
+      match kv r "waiters", kv r "stranded", kv r "stopret", kv r "exited" with
+      | some _, some s, some sr, some ex =>
+        if s > 0 then s!"reject:waiter-never-released-{s}"
+        else if sr ≠ 1 then "reject:stop-did-not-return"
+        else if ex ≠ 1 then "reject:flusher-did-not-exit"
+        else "accept"
+      | _, _, _, _ => "bad-op"
+  | "debwait" :: r =>
+      match kv r "stranded", kv r "stophung", kv r "flusherleft" with
+      | some s, some h, some f =>
+        if s > 0 then s!"reject:waiter-never-released-{s}"
+        else if h > 0 then s!"reject:stop-hung-{h}"
+        else if f > 0 then s!"reject:flusher-did-not-exit-{f}"
+        else "accept"
+      | _, _, _ => "bad-op"
+  | "sessref" :: r =>
+      match kv r "waiters", kv r "returned", kv r "closeret", kv r "leaked", kv r "open" with
+      | some n, some m, some c, some l, some o =>
+        if c ≠ 1 then "reject:close-did-not-return"
+        else if l > 0 then s!"reject:goroutines-left-in-gocql-{l}:{(kvs r "stack").getD "?"}"
+        else if m ≠ n then s!"reject:refreshRing-callers-returned-{m}-of-{n}"
+        else if o > 0 then s!"reject:open-after-close-{o}"
+        else "accept"
+      | _, _, _, _, _ => "bad-op"
   | "hsmodel" :: v :: acts =>
       match acts.mapM parseHsAct with
       | some as =>
